@@ -203,6 +203,9 @@ type FuncSummary struct {
 	Paths   int
 	// IsGoroutine / IsCallback: function literals that are not inlined
 	LitRole string
+	// ParamCallHeld: for function-typed parameters that the function invokes: the lock classes held at
+	// every such invocation (param name -> set). Absent = the parameter is never invoked directly.
+	ParamCallHeld map[string]map[string]bool
 	// lock operations seen (for instance counting)
 	LockOps int
 	EvOverflow bool
@@ -242,6 +245,12 @@ type LockEngine struct {
 	// class-hierarchy-resolved interface calls is instance-level reasoning (value = reason)
 	Singleton map[string]string
 	Wakers map[*types.Var][]*FuncSummary // channel field -> functions that close or send on it
+	// GuardedTypes: named container types (heaps, sortable lists) whose manipulation through
+	// container/heap or sort counts as an access to state guarded by the given lock class
+	GuardedTypes map[*types.TypeName]string
+	// CallbackPolicy: callee -> how function literals passed to it run: "async" (later, nothing held)
+	// or "held:<class>" (later, under that lock by construction); default = synchronously, now
+	CallbackPolicy map[*types.Func]string
 	// TreatAsHeld: functions documented to be called with a given class held (callbacks run under a lock)
 	AssumeHeld map[any][]string
 }
@@ -485,7 +494,7 @@ func (fc *fctx) lockOperand(sel *ast.SelectorExpr) ast.Expr {
 // engine construction
 
 func NewLockEngine(p *Program) *LockEngine {
-	return &LockEngine{P: p, Sums: map[any]*FuncSummary{}, Edges: map[string]*OrderEdge{}, Guarded: map[*types.Var]string{}, BlockingCallees: map[*types.Func]string{}, Stats: map[string]int{}, AssumeHeld: map[any][]string{}}
+	return &LockEngine{P: p, Sums: map[any]*FuncSummary{}, Edges: map[string]*OrderEdge{}, Guarded: map[*types.Var]string{}, BlockingCallees: map[*types.Func]string{}, Stats: map[string]int{}, AssumeHeld: map[any][]string{}, GuardedTypes: map[*types.TypeName]string{}, CallbackPolicy: map[*types.Func]string{}}
 }
 
 func isNoReturnCall(info *types.Info, call *ast.CallExpr) bool {
@@ -624,6 +633,7 @@ func (e *LockEngine) analyse(s *FuncSummary) (changed bool) {
 	s.Needs = map[string]*GuardAccess{}
 	s.LockOps = 0
 	s.EvOverflow = false
+	s.ParamCallHeld = nil
 	fc.prepass(s.Body)
 	init := newState()
 	for _, c := range e.AssumeHeld[s.key()] {
@@ -1589,6 +1599,23 @@ func (fc *fctx) guardAccess(st *lfState, sel *ast.SelectorExpr) {
 
 func (fc *fctx) guardWrites(st *lfState, lhs []ast.Expr) {}
 
+// guardNeed records that guarded state of class is touched at pos (through something other than a field selector).
+func (fc *fctx) guardNeed(st *lfState, class, what string, pos token.Pos) {
+	fc.eng.Stats["guarded-accesses"]++
+	if st.holdsClass(class) {
+		return
+	}
+	for k, ks := range st.keys {
+		if ks.class == class && ks.mode == kNotHeld {
+			fc.diag("guarded", class, pos, fmt.Sprintf("%s is touched after %s was released", what, k), nil)
+			return
+		}
+	}
+	if _, ok := fc.sum.Needs[class]; !ok {
+		fc.sum.Needs[class] = &GuardAccess{Class: class, Field: what, Pos: pos, Chain: []string{fmt.Sprintf("%s: %s touches %s", fc.eng.P.Pos(pos), fc.sum.Name, what)}}
+	}
+}
+
 // ---------------------------------------------------------------------------
 // calls
 
@@ -1607,6 +1634,30 @@ func (fc *fctx) doCall(call *ast.CallExpr, st *lfState, deferred bool) []*lfStat
 		if b, ok := fc.info.Uses[id].(*types.Builtin); ok {
 			_ = b
 			return []*lfState{st}
+		}
+		if v, ok := fc.info.Uses[id].(*types.Var); ok {
+			if _, isSig := v.Type().Underlying().(*types.Signature); isSig {
+				for _, pn := range fc.sum.Params {
+					if pn == id.Name {
+						held := map[string]bool{}
+						for _, hk := range st.heldKeys() {
+							held[st.keys[hk].class] = true
+						}
+						if fc.sum.ParamCallHeld == nil {
+							fc.sum.ParamCallHeld = map[string]map[string]bool{}
+						}
+						if prev, ok := fc.sum.ParamCallHeld[pn]; ok {
+							for c := range prev {
+								if !held[c] {
+									delete(prev, c)
+								}
+							}
+						} else {
+							fc.sum.ParamCallHeld[pn] = held
+						}
+					}
+				}
+			}
 		}
 	}
 	op, operand := fc.classify(call)
@@ -1761,6 +1812,55 @@ func (fc *fctx) doCall(call *ast.CallExpr, st *lfState, deferred bool) []*lfStat
 
 	// calls to declared functions / methods
 	fn := calleeOf(fc.info, call)
+	// guarded container manipulated through container/heap or sort
+	if fn != nil && fn.Pkg() != nil && (fn.Pkg().Path() == "container/heap" || fn.Pkg().Path() == "sort") && len(call.Args) > 0 && len(fc.eng.GuardedTypes) > 0 {
+		if tv, ok := fc.info.Types[call.Args[0]]; ok {
+			t := tv.Type
+			if p, ok := t.(*types.Pointer); ok {
+				t = p.Elem()
+			}
+			if n, ok := t.(*types.Named); ok {
+				if class, ok := fc.eng.GuardedTypes[n.Obj()]; ok {
+					fc.guardNeed(st, class, "container "+n.Obj().Name()+" via "+fn.Pkg().Name()+"."+fn.Name(), call.Pos())
+				}
+			}
+		}
+	}
+	// function literals passed as arguments run synchronously inside the callee unless the callee is
+	// known to defer them
+	if fn != nil || true {
+		policy := ""
+		if fn != nil {
+			policy = fc.eng.CallbackPolicy[fn]
+		}
+		if policy == "" {
+			for ai, a := range call.Args {
+				var fl *ast.FuncLit
+				switch x := ast.Unparen(a).(type) {
+				case *ast.FuncLit:
+					fl = x
+				case *ast.Ident:
+					if v, ok := fc.info.Uses[x].(*types.Var); ok {
+						fl = fc.litVars[v]
+					}
+				}
+				if fl == nil {
+					continue
+				}
+				if ls, ok := fc.eng.Sums[fl]; ok {
+					// classes the callee is known to hold whenever it invokes this parameter
+					var calleeHeld map[string]bool
+					if fn != nil {
+						if cs, ok := fc.eng.Sums[fn]; ok && ai < len(cs.Params) {
+							calleeHeld = cs.ParamCallHeld[cs.Params[ai]]
+						}
+					}
+					fc.applySummaryHeld(call, st, ls, calleeHeld)
+					ls.LitRole = "sync-callback"
+				}
+			}
+		}
+	}
 	// LockPile handed to a callee: it may add locks to it
 	for _, a := range call.Args {
 		if u, ok := ast.Unparen(a).(*ast.UnaryExpr); ok && u.Op == token.AND {
@@ -1880,6 +1980,27 @@ func (fc *fctx) translate(call *ast.CallExpr, cs *FuncSummary, key string) (stri
 		return cs.Pkg.Types.Name() + "." + key, true
 	}
 	return "", false
+}
+
+// applySummaryHeld applies a callback's summary as if it ran inside the callee with extra lock
+// classes held there.
+func (fc *fctx) applySummaryHeld(call *ast.CallExpr, st *lfState, cs *FuncSummary, extra map[string]bool) {
+	if len(extra) == 0 {
+		fc.applySummary(call, st, cs, true)
+		return
+	}
+	var added []string
+	for c := range extra {
+		if !st.holdsClass(c) {
+			k := "(callee-held " + c + ")"
+			st.keys[k] = keyState{mode: kHeld, class: c}
+			added = append(added, k)
+		}
+	}
+	fc.applySummary(call, st, cs, true)
+	for _, k := range added {
+		delete(st.keys, k)
+	}
 }
 
 func (fc *fctx) applySummary(call *ast.CallExpr, st *lfState, cs *FuncSummary, direct bool) {
@@ -2295,4 +2416,29 @@ func (e *LockEngine) indexWakers() {
 			return true
 		})
 	}
+}
+
+// CallEffectOnClass reports how a (statically resolved) call affects locks of the given class:
+// releases = the callee returns with the lock released or released it temporarily; acquires = net +1.
+func (e *LockEngine) CallEffectOnClass(info *types.Info, call *ast.CallExpr, class string) (releases, acquires bool) {
+	fn := calleeOf(info, call)
+	if fn == nil {
+		return false, false
+	}
+	s, ok := e.Sums[fn]
+	if !ok {
+		return false, false
+	}
+	for _, ef := range s.Effects {
+		if ef.Class != class {
+			continue
+		}
+		if ef.Delta < 0 || ef.Touched {
+			releases = true
+		}
+		if ef.Delta > 0 {
+			acquires = true
+		}
+	}
+	return
 }
